@@ -115,7 +115,7 @@ theorem C28_materialize_eq_inline_partial (fo : FloatOps) (fns : String → List
 /-! ### the engine's name resolution -/
 
 theorem C28_model_refines (dev : Dev) (h1 : dev.scopeNeverRestored = false) (h2 : dev.cacheByName = false)
-    (pick : String → Nat) (nq : NQ) : enginePlan dev pick nq = inlinedPlan nq := by
+    (tw : List Nat) (pick : String → Nat) (nq : NQ) : enginePlan dev tw pick nq = inlinedPlan nq := by
   simp [enginePlan, inlinedPlan, cacheE, h2, bindE_restore dev h1 nq []]
 
 /-- the binder half of `C28_unique_names`: whatever the switches, with unique names the global map binds every reference
@@ -124,13 +124,13 @@ theorem C28_unique_names_binder (dev : Dev) (nq : NQ) (hw : wellScoped [] nq = t
     (bindE dev nq []).1 = bindL [] nq :=
   (bindE_unique dev nq [] [] (fun _ _ h => h) hw (fun _ _ h => by simp [keys] at h) hn).1
 
-theorem C28_unique_names (dev : Dev) (pick : String → Nat) (nq : NQ)
+theorem C28_unique_names (dev : Dev) (tw : List Nat) (pick : String → Nat) (nq : NQ)
     (hw : wellScoped [] nq = true) (hn : (defNames nq).Nodup) :
-    enginePlan dev pick nq = inlinedPlan nq := by
+    enginePlan dev tw pick nq = inlinedPlan nq := by
   have hb := C28_unique_names_binder dev nq hw hn
   simp only [enginePlan, inlinedPlan, cacheE, hb]
   split
-  · rw [cacheSub_id (bindL [] nq).aliases pick (bindL_aliases_func nq hn) (bindL [] nq) (fun _ h => h)]
+  · rw [cacheSub_id tw (bindL [] nq).aliases pick (bindL_aliases_func nq hn) (bindL [] nq) (fun _ h => h)]
   · rfl
 
 /-! ### negation witnesses (A.16) and non-vacuity -/
@@ -155,17 +155,17 @@ theorem C28_shadowing_violates :
     run fo0 fns0 [] (lexPlan [] a16) [] [] = .ok [[.int 1, .int 2]] ∧
     run fo0 fns0 [] (inlinedPlan a16) [] [] = .ok [[.int 1, .int 2]] ∧
     -- the unchanged tree (cache keyed on the name; the first candidate is materialised) answers (1, 1) …
-    run fo0 fns0 [] (enginePlan today (fun _ => 0) a16) [] [] = .ok [[.int 1, .int 1]] ∧
+    run fo0 fns0 [] (enginePlan today [] (fun _ => 0) a16) [] [] = .ok [[.int 1, .int 1]] ∧
     -- … and (2, 2) had it materialised the other candidate: no choice is right
-    run fo0 fns0 [] (enginePlan today (fun _ => 1) a16) [] [] = .ok [[.int 2, .int 2]] ∧
+    run fo0 fns0 [] (enginePlan today [] (fun _ => 1) a16) [] [] = .ok [[.int 2, .int 2]] ∧
     -- the never-restored name map alone (no cache involved: every name is referenced once): (5, 2) instead of (5, 1)
     run fo0 fns0 [] (lexPlan [] a16b) [] [] = .ok [[.int 5, .int 1]] ∧
-    run fo0 fns0 [] (enginePlan { scopeNeverRestored := true } (fun _ => 0) a16b) [] [] = .ok [[.int 5, .int 2]] := by
+    run fo0 fns0 [] (enginePlan { scopeNeverRestored := true } [] (fun _ => 0) a16b) [] [] = .ok [[.int 5, .int 2]] := by
   refine ⟨by rfl, by rfl, by rfl, by rfl, by rfl, by rfl⟩
 
 /-- `C28_unique_names` applies to the renamed statement, and there the unchanged tree is right -/
-example : enginePlan today (fun _ => 0) a16u = inlinedPlan a16u := C28_unique_names today _ a16u (by decide) (by decide)
-example : run fo0 fns0 [] (enginePlan today (fun _ => 0) a16u) [] [] = .ok [[.int 1, .int 2]] := by rfl
+example : enginePlan today [] (fun _ => 0) a16u = inlinedPlan a16u := C28_unique_names today [] _ a16u (by decide) (by decide)
+example : run fo0 fns0 [] (enginePlan today [] (fun _ => 0) a16u) [] [] = .ok [[.int 1, .int 2]] := by rfl
 /-- the hypothesis of `C28_unique_names` fails for A.16, as it must -/
 example : ¬ (defNames a16).Nodup := by decide
 
